@@ -1,4 +1,5 @@
 import WowVerif.Model.C08Chain
+import WowVerif.Model.C08Read
 namespace Wv.Drv
 open Wv Wv.Chain
 
@@ -7,6 +8,18 @@ def intOfString (s : String) : Option Int :=
 
 def chainToString (c : Chain) : String :=
   if c.entries.isEmpty then "-" else ",".intercalate (c.entries.map fun e => s!"{e.id}:{e.prio}")
+
+/-- `1,2;e;0` = three listings, the second one empty; `-` = no archive -/
+def listsOfString (s : String) : Option (List (List Nat)) :=
+  if s == "-" then some [] else (s.splitOn ";").mapM fun l => if l == "e" then some [] else (l.splitOn ",").mapM String.toNat?
+
+/-- `a` absent, `d:<hex>` plain and readable, `dx` plain and unreadable, `p:<hex>` a patch entry (its PTCH bytes), `px` unreadable -/
+def verOfString (s : String) : Option Ver :=
+  if s == "a" then some .absent else if s == "dx" then some (.plain none) else if s == "px" then some (.patch none)
+  else match s.splitOn ":" with
+    | ["d", h] => (bytesOfHex h).map fun b => .plain (some b)
+    | ["p", h] => (bytesOfHex h).map fun b => .patch (parsePatch b)
+    | _ => none
 
 /-- stateful: returns the new chain and the answer -/
 def c08 (c : Chain) (toks : List String) : Option (Chain × String) :=
@@ -42,6 +55,19 @@ def c08 (c : Chain) (toks : List String) : Option (Chain × String) :=
         | .error .format => pure (c, "err format")
         | .error .md5Base => pure (c, "err md5base")
         | .error .md5Result => pure (c, "err md5result")
+  | ["c08map", ls, k] => do
+      let lists ← listsOfString ls
+      match mapGet (rebuildMap lists) (← k.toNat?) with
+      | some i => pure (c, toString i)
+      | none => pure (c, "none")
+  | ["c08list", ls] => do
+      let l := listing (← listsOfString ls)
+      pure (c, if l.isEmpty then "-" else ",".intercalate (l.map toString))
+  | ["c08pread", win, vs] => do
+      let vers ← (vs.splitOn ";").mapM verOfString
+      match readFile Md5.md5 vers (win.toNat?) with
+      | .ok d => pure (c, "ok " ++ hexOrDash d)
+      | .error _ => pure (c, "err")
   | ["md5", h] => do pure (c, hexOfBytes (Md5.md5 (← bytesOfHex h)))
   | ["c08rle", h, size] => do
       match rleDecompress (← bytesOfHex h) (← size.toNat?) true with
